@@ -205,6 +205,25 @@ fn run(case: &Case) -> CaseReport {
         let before = it.sandbox.log_bytes();
         match step {
             Step::Op(op) => {
+                // a rotate is a no-op when NO cursor frame of the thread matches its filters; that
+                // is decided here from the thread's truth before the call (reference model of the
+                // documented filter rule: a filter that is set matches only a cursor frame that
+                // carries the same value), not from the answer of the call itself
+                let rotate_model_noop = match op {
+                    Op::CursorRotate { t, provider, endpoint, model } => {
+                        let tid = it.thread_id(*t);
+                        it.sandbox.truth_thread(&tid).ok().map(|truth| {
+                            rv::model::rotate_target(
+                                &truth,
+                                provider.map(|x| rv::store::PROVIDERS[x as usize % 3]),
+                                endpoint.map(|x| rv::store::ENDPOINTS[x as usize % 3]),
+                                model.map(|x| rv::store::MODELS[x as usize % 3]),
+                            )["rotated"]
+                                == false
+                        })
+                    }
+                    _ => None,
+                };
                 let res = match catch(|| it.apply(op)) {
                     Ok(r) => r,
                     Err(p) => {
@@ -240,6 +259,12 @@ fn run(case: &Case) -> CaseReport {
                     (Op::CursorRotate { .. }, Ok(v)) if v["rotated"] == false => {
                         expect = Expect::Nothing;
                         what = "rotate_nothing_to_rotate".into();
+                    }
+                    (Op::CursorRotate { .. }, Ok(_)) if rotate_model_noop == Some(true) => {
+                        // the call claims a rotation although no cursor frame matches the filters
+                        expect = Expect::Nothing;
+                        what = "rotate_no_matching_cursor".into();
+                        rep.class("rotate_filter_matches_no_cursor");
                     }
                     _ => {}
                 }
